@@ -163,11 +163,6 @@ def VInfo.events (v : VInfo) : List SEvent :=
 /-- a key can be written: it contains no NUL -/
 def keyOk (k : List Nat) : Bool := k.all (· != 0)
 
-/-- with the tight convention a structure without value and children ends right after its key;
-`leafOk` says that this end is on a 32-bit boundary (even key length) -/
-def leafOk (tight : Bool) (key value : List Nat) (childless : Bool) : Bool :=
-  !(tight && value.isEmpty && childless && key.length % 2 == 1)
-
 def VStr.wf (s : VStr) : Bool := keyOk s.key
 def VTable.wf (t : VTable) : Bool := keyOk t.lang && t.strings.all VStr.wf
 def VVar.wf (x : VVar) : Bool := keyOk x.key
@@ -175,17 +170,6 @@ def VBlock.wf : VBlock → Bool
   | .stringInfo ts => ts.all VTable.wf
   | .varInfo vs => vs.all VVar.wf
 def VInfo.wf (v : VInfo) : Bool := keyOk v.key && v.blocks.all VBlock.wf
-
-def VStr.leafOk (tight : Bool) (s : VStr) : Bool := Spec.leafOk tight s.key s.stored true
-def VTable.leafOk (tight : Bool) (t : VTable) : Bool :=
-  Spec.leafOk tight t.lang [] t.strings.isEmpty && t.strings.all (VStr.leafOk tight)
-def VVar.leafOk (tight : Bool) (x : VVar) : Bool := Spec.leafOk tight x.key x.value true
-def VBlock.leafOk (tight : Bool) : VBlock → Bool
-  | .stringInfo ts => Spec.leafOk tight kStringFileInfo [] ts.isEmpty && ts.all (VTable.leafOk tight)
-  | .varInfo vs => Spec.leafOk tight kVarFileInfo [] vs.isEmpty && vs.all (VVar.leafOk tight)
-/-- no structure of `v` is a tight leaf with a key of odd length -/
-def VInfo.leafOk (tight : Bool) (v : VInfo) : Bool :=
-  Spec.leafOk tight v.key v.value v.blocks.isEmpty && v.blocks.all (VBlock.leafOk tight)
 
 /-- every word the writer emits is a u16: content words are, and the root's length fits
 (all other length fields are smaller) -/
